@@ -250,7 +250,13 @@ def exec (conjv : K → K) (half : K) (st : St K) (cmd : List String) : Option (
     | .ok acc => some ({ st with syms := acc }, s!"o accepted {acc.length}" :: acc.map fun p => s!"o accop {polyStr p}")
   | ["states"] =>
     let nst := 2 ^ st.tbl.length
-    let qn : Nat → List K := quantumNumbers st.syms
+    let qnRaw : Nat → List K := quantumNumbers st.syms
+    -- values that agree within the tolerance with an already known value of the same operation are identified
+    let close (v k : K) : Bool :=
+      DrvScalar.abs (v - k) ≤ Pomerol.Gen.Core.quantumNumbersSnapTol * (if DrvScalar.abs k > 1.0 then DrvScalar.abs k else 1.0)
+    let rows := if Pomerol.Gen.Core.quantumNumbersSnapped
+      then (snapAll close st.syms.length ((List.range nst).map qnRaw)).toArray else #[]
+    let qn : Nat → List K := fun s => if Pomerol.Gen.Core.quantumNumbersSnapped then rows.getD s [] else qnRaw s
     let qeq (a b : List K) : Bool := a.length == b.length && (a.zip b).all fun (x, y) => bitsEq x y
     let (blkOf, blocks) := classify qeq qn nst
     let l1 := (List.range nst).map fun s => s!"o state {s} {blkOf.getD s 0} {(innerState blkOf blocks s).getD 0}"
